@@ -15,3 +15,5 @@ for ID in "$@"; do
 done
 git -C /repo checkout -- . 
 rm -rf /verif/violations
+# rebuild against the clean tree so that a directly invoked binary is never the mutated one
+( cd /verif/harness && CARGO_NET_OFFLINE=true cargo build --release --offline --bin qv >/dev/null 2>&1 )
